@@ -5,6 +5,26 @@ import json, os
 HERE = os.path.dirname(os.path.abspath(__file__))
 
 CHECKS = {
+ "C03": dict(level="exploration", ref="DESIGN.md §5 C03",
+   technique="deviation-bounded exhaustive enumeration of written files, each decoded by an independent reference decoder (differential / translation-style oracle)",
+   text="Every object of the C01/C02 enumerations (project fields, 146 names, pattern lists and note cells, every module type x every single deviation through BOTH writers, linked type pairs; thorough: deviation pairs) and the MetaModule/Sampler objects of C15/C16 is written by rv and decoded by rvref.codec, a strict grammar-driven decoder written only from the format documentation and the YAML by a separate author: the stream must parse completely, no structural rule may be violated (SNAM 32 bytes, PDTA = lines x tracks x 8, one CVAL per attached controller, 8 CMID bytes per value, CHNM < CHNK, options record covers the highest byte, 400-byte sampler record, 44-byte sample meta, envelope size, PEND/SEND closing, header order) and the decoded content must equal snapshot(object).",
+   note="Trusted base: rvref.codec/spec (independent of rv; 52/52 fixtures decode completely). Layout facts the docs do not state (SFGS bit positions, SLnK placement) come from fixtures/CHANGELOG and are listed in rvref/SHAPE.md; a symmetric rv error there is out of reach."),
+ "C04": dict(level="exploration", ref="DESIGN.md §5 C04",
+   technique="exhaustive enumeration of reference-encoded files and of every structure-preserving edit of every file, against an independent decoder",
+   text="Files written by the independent encoder for every module type x every single deviation (synth and project), gap patterns at every subset of 4 slots x 5 link layouts rv never writes, sampler records whose legacy map differs from the current one; all 52 fixtures; and for every fixture and each type's default files EVERY edit: unknown chunk inserted at each position (also nested), each optional chunk occurrence dropped, each CVAL list truncated to every length, every adjacent header transposition. snapshot(load(file)) must equal the decoder's value with documented defaults; unknown chunks change neither the snapshot nor the re-saved bytes.",
+   note="N16: fields without chunk and without documented default are not compared; N5 flags; CHNK not a public field; Output's name is fixed by the library. rvref is the trusted reference."),
+ "C06": dict(level="exploration", ref="DESIGN.md §5 C06",
+   technique="exhaustive enumeration of (loaded file, module, catalogue edit) triples with a save/load differential oracle",
+   text="All 52 fixtures, each module type's default files and the MetaModule/Sampler objects of C15/C16 are loaded; for every module every catalogue edit (every controller x alphabet, every option value, common fields, MIDI bindings, payload elements incl. in-place forms, sampler samples/envelopes/map/effect, MetaModule count/labels/mappings/inner project), every project field corner and note/pattern edits: set on the LOADED object, save, load: the reloaded snapshot equals the edited object's snapshot (no stale bytes replayed), and the edit changed nothing outside the edited module/field.",
+   note="One edit per loaded object. Couplings excused: MultiCtl fan-out to linked targets; edits the API rejects are counted."),
+ "C15": dict(level="exploration", ref="DESIGN.md §5 C15",
+   technique="exhaustive enumeration of MetaModule configurations (all counts 0..96, nesting depth, mapping kind x raw boundary, labels) with round-trip + independent-decode oracles",
+   text="Nesting chains of depth 0..3 (thorough 0..5 + a branch) with one-deviation innermost modules; user-controller count over ALL 0..96; for n in {0,1,2,95,96} mappings of boundary slots (and one slot >= n) onto every controller kind with stored values at the raw boundaries; labels {None, empty, ASCII, non-ASCII, 40 chars} at boundary indices; both contexts and clone(). Recursive snapshot equality, count, attached flags == [True]*n+[False]*(96-n); independently decoded file has exactly 5+n CVALs, labels only below n, 96 mappings.",
+   note="User-defined controllers are compared by stored value (N13)."),
+ "C16": dict(level="exploration", ref="DESIGN.md §5 C16",
+   technique="deviation-bounded exhaustive enumeration of Sampler instruments + legacy fixture variants",
+   text="All 16 subsets of slots {0,1,2,127}, each single slot 0..127, 5 data shapes x 3 formats x 2 channel counts, every sample field at struct-width corners, every envelope (7) with 0/1/4/12/13 points, 16-bit and range corners, all 8 flag combinations, index and byte fields, each of 119 note-map keys individually and three whole maps, vibrato/fadeout/editor corners, embedded effects, controllers/options; each through Synth write/read, clone() and Project write/read with slot indices stable. Legacy: the fixture as is, without envelope chunks (conversion checked against y*0x200+min from the documented offsets), with altered signature: re-save keeps what was loaded.",
+   note="Volume/panning envelope indices stay within the 8-bit legacy fields the record also carries. One deviation at a time."),
  "C05": dict(level="model_checking", ref="DESIGN.md §5 C05",
    technique="explicit-state exploration of the open/save machine (state = file bytes, transition = save(load(X))) from an exhaustive set of initial files",
    text="Initial states: all 52 fixtures, rv-written files for every module type x every single deviation, and every fixture with each stored controller value / options byte / link or slot entry / note velocity replaced by boundary and out-of-range values (also inside embedded projects and effects; ~4 100 mutants). Each loadable X is driven through 3 (thorough 5) load/save transitions: the chain must be constant from Y1 on, write_to must not change the object's snapshot, two consecutive write_to give equal bytes.",
